@@ -26,10 +26,14 @@ const (
 	kRODir = iota // WithReadOnlyDirMount(dir, "/")
 	kDirFS        // WithFSMount(os.DirFS(dir), "/")
 	kMapFS        // WithFSMount(fstest.MapFS{...}, "/")
+	kDualFS       // WithFSMount(value implementing io/fs.FS AND experimental/sys.FS (writable underneath), "/")
+	kRWFile       // WithFSMount(fs.FS whose files are *os.File opened O_RDWR, "/")
+	kSubFS        // WithFSMount(fs.Sub(os.DirFS(sandbox), "mnt"), "/")
+	kRichFS       // WithFSMount(struct embedding os.DirFS + ReadDirFS/StatFS/ReadFileFS, "/")
 	nKinds
 )
 
-var kindNames = [nKinds]string{"rodir", "dirfs", "mapfs"}
+var kindNames = [nKinds]string{"rodir", "dirfs", "mapfs", "dualfs", "rwfile", "subfs", "richfs"}
 
 func kindByName(n string) int {
 	for i, k := range kindNames {
@@ -328,6 +332,14 @@ func (w *world) immutable(fc wazero.FSConfig, guest string) wazero.FSConfig {
 		return fc.WithReadOnlyDirMount(filepath.Join(w.base, "mnt"), guest)
 	case kDirFS:
 		return fc.WithFSMount(os.DirFS(filepath.Join(w.base, "mnt")), guest)
+	case kDualFS:
+		return fc.WithFSMount(newDualFS(filepath.Join(w.base, "mnt")), guest)
+	case kRWFile:
+		return fc.WithFSMount(rwFileFS{filepath.Join(w.base, "mnt")}, guest)
+	case kSubFS:
+		return fc.WithFSMount(newSubFS(w.base), guest)
+	case kRichFS:
+		return fc.WithFSMount(richFS{os.DirFS(filepath.Join(w.base, "mnt")), filepath.Join(w.base, "mnt")}, guest)
 	}
 	return fc.WithFSMount(w.mapfs, guest)
 }
